@@ -168,6 +168,13 @@ func (c *Config) UnpackWithoutOptions(to interface{}) error {
 func reifyInto(opts *options, to reflect.Value, from *Config) Error {
 	to = chaseValuePointers(to)
 
+	// allocate what a nil pointer behind the target points to
+	// (var m *map[string]T; Unpack(&m))
+	for to.Kind() == reflect.Ptr && to.IsNil() && to.CanSet() {
+		to.Set(reflect.New(to.Type().Elem()))
+		to = chaseValuePointers(to)
+	}
+
 	if to, ok := tryTConfig(to); ok {
 		return mergeConfig(opts, to.Addr().Interface().(*Config), from)
 	}
